@@ -3,7 +3,9 @@
 (* a reader must report for it.  img is a record:                               *)
 (*  arch "x86"|"x64", compile (4 bytes LE), export (4 bytes LE or <<>>),         *)
 (*  lfanew, magicMZ, magicPE (4 bytes), nsec, expsec (1-based), secsize,         *)
-(*  expoff (offset of the export directory inside its section), prepend, append  *)
+(*  expoff (offset of the export directory inside its section), vsize (virtual   *)
+(*  size of every section: secsize, or 4096 = sections adjacent in the virtual    *)
+(*  address space although their raw data is shorter), prepend, append            *)
 EXTENDS Bytes
 Zeros(n) == Rep(0, n)
 Put(s, off, b) == [i \in 1..Len(s) |-> IF i > off /\ i <= off + Len(b) THEN b[i - off] ELSE s[i]]
@@ -21,7 +23,7 @@ FileHdr(img) == Machine(img.arch) \o LE(img.nsec, 2) \o img.compile \o Zeros(8) 
 Opt(img) == LET z  == Put(Zeros(OptSize(img.arch)), 0, OptMagic(img.arch))
                 z2 == Put(z, 60, LE(FirstRaw(img), 4))                       \* SizeOfHeaders
             IN IF img.export = <<>> THEN z2 ELSE Put(z2, DDOff(img.arch), LE(ExportRVA(img), 4) \o LE(40, 4))
-Section(img, i) == <<46, 115, 101, 99, 48 + i, 0, 0, 0>> \o LE(img.secsize, 4) \o LE(4096 * i, 4) \o LE(img.secsize, 4)
+Section(img, i) == <<46, 115, 101, 99, 48 + i, 0, 0, 0>> \o LE(img.vsize, 4) \o LE(4096 * i, 4) \o LE(img.secsize, 4)
                    \o LE(FirstRaw(img) + (i - 1) * img.secsize, 4) \o Zeros(12) \o LE(1073741888, 4)
 Body(img) == LET z == Zeros(img.secsize * img.nsec) IN
              IF img.export = <<>> THEN z ELSE Put(z, (img.expsec - 1) * img.secsize + img.expoff, Zeros(4) \o img.export \o Zeros(32))
